@@ -323,7 +323,12 @@ func runWriter(o wopts, input []byte, calls []wcall, sink *recSink, blocks *[]in
 			segs = append(segs, cur)
 			cur = wseg{SinkStart: cur.SinkEnd, InStart: pos}
 		case "apply":
-			r.Err = classify(zw.Apply(lz4.BlockChecksumOption(o.BCS)))
+			if c.N >= 4 && c.N <= 7 {
+				// re-configure: a different block size (only meaningful before the first write of a life)
+				r.Err = classify(zw.Apply(lz4.BlockSizeOption(blockSizeOf(c.N))))
+			} else {
+				r.Err = classify(zw.Apply(lz4.BlockChecksumOption(o.BCS)))
+			}
 		}
 		r.Sink, r.Calls = sink.snapshot()
 		res = append(res, r)
